@@ -378,8 +378,8 @@ class HTTPCache:
 
 def atomic_write(path: Path, data: bytes, temp_dir: Path) -> None:
     """Atomically write a file."""
+    tempf = tempfile.NamedTemporaryFile(dir=temp_dir)
     try:
-        tempf = tempfile.NamedTemporaryFile(dir=temp_dir)
         tempf.write(data)
         os.replace(tempf.name, path)
     finally:
